@@ -18,7 +18,7 @@ import (
 //     pointers) are dropped;
 //   - the import specs of one import declaration are sorted by path and name;
 //   - ParenExpr(ParenExpr(x)) is rendered as ParenExpr(x) (the printer drops a doubled parenthesis);
-//   - the parentheses around the whole condition / tag of if, for, switch are dropped (the printer's
+//   - the parentheses around the whole condition / tag of if, for, switch and the operand of range are dropped (the printer's
 //     controlClause strips them deliberately, as gofmt does).
 func Dump(n any) string {
 	var b strings.Builder
@@ -94,7 +94,7 @@ func dump(b *strings.Builder, v reflect.Value) {
 				continue
 			}
 			b.WriteString(" " + f.Name + "=")
-			if (t.Name() == "IfStmt" && f.Name == "Cond") || (t.Name() == "ForStmt" && f.Name == "Cond") || (t.Name() == "SwitchStmt" && f.Name == "Tag") {
+			if (t.Name() == "IfStmt" && f.Name == "Cond") || (t.Name() == "ForStmt" && f.Name == "Cond") || (t.Name() == "SwitchStmt" && f.Name == "Tag") || (t.Name() == "RangeStmt" && f.Name == "X") {
 				fv := v.Field(i)
 				for !fv.IsNil() {
 					pe, ok := fv.Interface().(*ast.ParenExpr)
